@@ -73,7 +73,8 @@ def run_attack(cfg, out):
         w.net.heal(0.002)
         # ---- byte accounting at the socket boundary
         bytes_in, bytes_out, promoted = Counter(), Counter(), set()
-        w.handler.on["connect"] = [lambda client: promoted.add(client.addr)]
+        ended = {}        # addr -> (bytes_in, bytes_out) at the moment its session was gone from the server's tables
+        w.handler.on["connect"] = [lambda client: (promoted.add(client.addr), ended.pop(client.addr, None))]
         w.handler.on["message"] = [lambda client, seqnum, msg: client.send(msg)]          # echo service
         appended = [0]
         orig_append = w.thread.append
@@ -113,6 +114,14 @@ def run_attack(cfg, out):
             elif addr not in promoted and bytes_out[addr] > bytes_in.get(addr, 0):
                 viol("amplification", "address %s has not completed the handshake: %d bytes sent to it, %d received from it" % (
                     addr, bytes_out[addr], bytes_in.get(addr, 0)))
+            if addr in ended:
+                # the session of this address is over (it is neither connected nor connecting any more): its completed handshake
+                # belongs to the past; from here on it is an address without a handshake like any other
+                post_in, post_out = bytes_in.get(addr, 0) - ended[addr][0], bytes_out[addr] - ended[addr][1]
+                c.inc("bytes_to_former_session_addresses", len(d))
+                if post_out > post_in:
+                    viol("amplification-after-session-end", "address %s: its session ended and it has not completed a new handshake: since then "
+                         "%d bytes sent to it (last datagram %d bytes), %d received from it" % (addr, post_out, len(d), post_in))
             if addr not in promoted:
                 c.inc("bytes_to_unauthenticated_addresses", len(d))
         w.wire_hooks.append(on_wire)
@@ -254,6 +263,54 @@ def run_attack(cfg, out):
             for k in late:
                 pending_echo.pop(k)
                 echo_late[0] += 1
+        # ---- address HISTORY: a client completes a session and is then removed (client disconnect / server-side kick / timeout);
+        #      within the next seconds short datagrams with a valid header (every type, every length 20..RECV-ish, mostly 20-25) are
+        #      spoofed from exactly that address.  After the session's end the address is unauthenticated again
+        for mode in ([cfg["shard"] % 3, (cfg["shard"] + 1) % 3] if w.alive() else []):
+            cl = w.connect_client()
+            if cl.udp.conn is None or getattr(cl.udp.conn.status, "value", 0) != 2 or cl.addr not in w.ctxt.connections:
+                c.inc("former_session_connect_failed")
+                continue
+            p = L.make_payload(cl.sender_id, 1, 40)
+            cl.udp.send(p, retry=0)
+            w.step(r.randint(3, 20))
+            if mode == 0:
+                cl.udp.disconnect()
+            elif mode == 1:
+                w.ctxt.connections[cl.addr].disconnect()
+            else:
+                cl.active = False                                    # the client falls silent: connection timeout at the server
+            gone = w.run_until(lambda world: cl.addr not in world.ctxt.connections and cl.addr not in world.ctxt.temp_connections,
+                               max_ticks=int((w.ctxt.connection_timeout + 3.0) / w.dt))
+            if not gone:
+                c.inc("former_session_not_removed")
+                continue
+            cl.active = False
+            w.step(r.randint(2, 4))                                   # the final datagrams of the session are on the wire by now
+            w.remove_client(cl)
+            ended[cl.addr] = (bytes_in.get(cl.addr, 0), bytes_out.get(cl.addr, 0))
+            c.inc("former_sessions_ended")
+            c.inc("former_sessions_ended_by_" + ["client_disconnect", "server_kick", "timeout"][mode])
+            types = [0, 3, 4, 5, 6, 7]
+            r.shuffle(types)
+            k = 0
+            for burst in range(6):
+                for _ in range(r.randint(3, 8)):
+                    ptype = types[k % len(types)]
+                    ln = r.choice([20, 21, 22, 23, 24, 25, 20 + k % 6, r.randint(20, 64)])
+                    k += 1
+                    nbody = ln - 20
+                    d = A.header("c2s", int(w.clock.now), r.randint(1, 65535), r.randint(0, 65535), ptype,
+                                 r.choice([0, nbody, max(0, nbody - 4), 24]), r.choice([0, 1, 2]), r.choice([0, 0xFFFFFFFF])) + r.randbytes(nbody)
+                    if nbody >= 4 and r.random() < 0.3:
+                        d = d[:-4] + A.crc(d[:-4])
+                    w.offer_server(cl.addr, d, "former-session-short")
+                    c.inc("inj_former_session_short")
+                w.step(r.randint(1, 30))
+                if not w.alive():
+                    viol("server-loop-died", "the server thread died: %s" % (w.thread_errors[:2],))
+                    break
+            c.inc("former_session_bytes_in", bytes_in.get(cl.addr, 0) - ended[cl.addr][0])
         # ---- more junk in ONE tick than any plausible queue bound, tick after tick, each batch arriving right behind the honest
         #      client's datagrams of that tick (well-formed headers from unknown addresses: they get as far as the loop's queue)
         if w.alive() and (cfg["shard"] % 4 == 3 or cfg.get("tier") != "quick"):
@@ -423,7 +480,8 @@ def finish(tier, seed, results):
     m = merge(results)
     inconclusive = []
     need(m["counters"], ["echo_requests", "echoes_received", "inj_random_bytes", "inj_hello_flood", "inj_hello_repeat", "inj_hello_undersized", "inj_hello_every_length", "inj_hello_flood_from_honest_ip", "inj_authenticated_malformed",
-                         "inj_from_blocklisted", "inj_spoofed_from_honest", "inj_authenticated_flood", "bytes_to_unauthenticated_addresses",
+                         "inj_from_blocklisted", "inj_former_session_short", "former_session_bytes_in", "former_sessions_ended_by_client_disconnect",
+                         "former_sessions_ended_by_server_kick", "former_sessions_ended_by_timeout", "inj_spoofed_from_honest", "inj_authenticated_flood", "bytes_to_unauthenticated_addresses",
                          "offered_blocklisted", "appended", "server_iterations", "freerun_appended", "freerun_consumed"], inconclusive)
     cov = {
         "evaluations": m["evaluations"],
